@@ -979,7 +979,10 @@ func (dc *driverContextLigature) transition(driver stateTableDriver, entry table
 		cursor := dc.matchLength
 
 		actionIdx := entry.AsMorxLigature()
-		actionData := dc.table.LigatureAction[actionIdx:]
+		var actionData []uint32 // empty for an action index past the action table (invalid font)
+		if int(actionIdx) < len(dc.table.LigatureAction) {
+			actionData = dc.table.LigatureAction[actionIdx:]
+		}
 
 		ligatureIdx := 0
 		var action uint32
